@@ -342,10 +342,10 @@ def gen_fitters(repo):
 # ----------------------------------------------------------------------------------------------------------
 import copy
 
-PURE_CALLS = {"utils.numerical_derivative"}
+PURE_CALLS = {"utils.numerical_derivative", "np.sqrt", "np.diag", "len"}
 # callees that may run between the definition of a local and its uses without changing what the definition denotes
 HARMLESS_CALLS = {"utils.numerical_derivative", "any", "all", "len", "zip", "sum", "np.sqrt", "np.diag",
-                  "__combine_fit_func_and_fit_params"}
+                  "__combine_fit_func_and_fit_params", "opt.curve_fit"}
 
 
 def _interferes(f, first, last):
@@ -442,9 +442,131 @@ def module_constants(tree):
     return consts
 
 
-def normalize_function(fdef, consts=None, keep=()):
+
+def _renumber(f):
+    """fresh, strictly increasing line numbers in execution order (after statements were spliced in)"""
+    counter = [0]
+
+    def stamp(node, ln):
+        for n in ast.walk(node):
+            if isinstance(n, ast.stmt) and n is not node:
+                continue
+            if hasattr(n, "lineno") or isinstance(n, (ast.expr, ast.stmt)):
+                n.lineno = n.end_lineno = ln
+                n.col_offset = n.end_col_offset = 0
+
+    def visit_block(stmts):
+        for st in stmts:
+            counter[0] += 1
+            ln = counter[0]
+            # the statement's own expressions (not its nested statements)
+            for field, value in ast.iter_fields(st):
+                if field in ("body", "orelse", "finalbody", "handlers"):
+                    continue
+                for v in (value if isinstance(value, list) else [value]):
+                    if isinstance(v, ast.AST):
+                        for n in ast.walk(v):
+                            n.lineno = n.end_lineno = ln
+                            n.col_offset = n.end_col_offset = 0
+            st.lineno = st.end_lineno = ln
+            st.col_offset = st.end_col_offset = 0
+            if isinstance(st, (ast.FunctionDef, ast.ClassDef)):
+                for n in ast.walk(st):
+                    n.lineno = n.end_lineno = ln
+                continue
+            for field in ("body", "orelse", "finalbody"):
+                sub = getattr(st, field, None)
+                if isinstance(sub, list):
+                    visit_block(sub)
+            for h in getattr(st, "handlers", []) or []:
+                counter[0] += 1
+                for n in ast.walk(h):
+                    if not isinstance(n, ast.stmt):
+                        n.lineno = n.end_lineno = counter[0]
+                h.lineno = h.end_lineno = counter[0]
+                visit_block(h.body)
+    visit_block(f.body)
+    return f
+
+
+def _splice_helpers(f, module):
+    """`T = helper(a, b, ..)` with a private module-level straight-line helper is replaced by the helper's statements
+    (parameters renamed to the argument names) followed by `T = <returned expression>`.  Only when that cannot change
+    the meaning: arguments are plain distinct names; the helper consists of single-name assignments and a final return;
+    its locals do not occur in the caller; an argument whose parameter the helper rebinds is not read afterwards in
+    the caller; the names the helper reads from the module are not bound in the caller; no loops around the call."""
+    if module is None:
+        return f, False
+    defs = {}
+    for n in module.body:
+        if isinstance(n, ast.FunctionDef):
+            defs.setdefault(n.name, []).append(n)
+    did = False
+    loops = [n for n in ast.walk(f) if isinstance(n, (ast.For, ast.While))]
+    for block in list(_blocks(f.body)):
+        i = 0
+        while i < len(block):
+            st = block[i]
+            i += 1
+            if not (isinstance(st, ast.Assign) and len(st.targets) == 1 and isinstance(st.targets[0], ast.Name)
+                    and isinstance(st.value, ast.Call) and isinstance(st.value.func, ast.Name)
+                    and st.value.func.id in defs and len(defs[st.value.func.id]) == 1 and not st.value.keywords
+                    and all(isinstance(a, ast.Name) for a in st.value.args)):
+                continue
+            h = defs[st.value.func.id][0]
+            if h is f or h.name == f.name or h.decorator_list or any(any(st is x for x in ast.walk(lp)) for lp in loops):
+                continue
+            a = h.args
+            if a.vararg or a.kwarg or a.kwonlyargs or a.defaults or a.posonlyargs or len(a.args) != len(st.value.args):
+                continue
+            pnames = [x.arg for x in a.args]
+            anames = [x.id for x in st.value.args]
+            if len(set(anames)) != len(anames):
+                continue
+            hbody = strip_doc(h.body)
+            if not hbody or not isinstance(hbody[-1], ast.Return) or hbody[-1].value is None or not all(
+                    isinstance(x, ast.Assign) and len(x.targets) == 1 and isinstance(x.targets[0], ast.Name) for x in hbody[:-1]):
+                continue
+            if any(isinstance(n, (ast.Lambda, ast.GeneratorExp, ast.ListComp, ast.SetComp, ast.DictComp, ast.NamedExpr))
+                   for x in hbody for n in ast.walk(x)):
+                continue
+            assigned = [x.targets[0].id for x in hbody[:-1]]
+            hlocals = set(assigned) - set(pnames)
+            caller_names = {n.id for n in ast.walk(f) if isinstance(n, ast.Name)} | {x.arg for x in f.args.args}
+            if hlocals & caller_names:
+                continue
+            hreads = {n.id for x in hbody for n in ast.walk(x) if isinstance(n, ast.Name) and isinstance(n.ctx, ast.Load)}
+            module_reads = hreads - set(pnames) - hlocals
+            caller_stores = {n for n, _ in _stores(f)} | {x.arg for x in f.args.args}
+            if module_reads & caller_stores:
+                continue
+            end = getattr(st, "end_lineno", st.lineno)
+            rebound = [anames[pnames.index(p)] for p in set(assigned) & set(pnames)]
+            if any(isinstance(n, ast.Name) and isinstance(n.ctx, ast.Load) and n.id in rebound and n.lineno > end for n in ast.walk(f)):
+                continue
+            if st.targets[0].id in anames and st.targets[0].id not in rebound and False:
+                continue
+
+            class Ren(ast.NodeTransformer):
+                def visit_Name(self, node):
+                    if node.id in pnames:
+                        return ast.copy_location(ast.Name(id=anames[pnames.index(node.id)], ctx=node.ctx), node)
+                    return node
+            new = [Ren().visit(copy.deepcopy(x)) for x in hbody[:-1]]
+            new.append(ast.Assign(targets=[copy.deepcopy(st.targets[0])], value=Ren().visit(copy.deepcopy(hbody[-1].value))))
+            block[i - 1:i] = new
+            i += len(new) - 1
+            did = True
+    if did:
+        ast.fix_missing_locations(f)
+        _renumber(f)
+    return f, did
+
+
+def normalize_function(fdef, consts=None, keep=(), module=None):
     f = copy.deepcopy(fdef)
     f.body = strip_doc(f.body)
+    f, _ = _splice_helpers(f, module)
     params = {a.arg for a in f.args.args + f.args.kwonlyargs + f.args.posonlyargs}
     if f.args.vararg:
         params.add(f.args.vararg.arg)
@@ -488,13 +610,24 @@ def normalize_function(fdef, consts=None, keep=()):
                 pnames = [x.arg for x in a.args]
                 expr = inner[0].value
                 free = _free_names(expr) - set(pnames)
-                if sum(1 for n, _ in stores if n == st.name) != 1 or any(n in free for n, _ in stores):
+                if sum(1 for n, _ in stores if n == st.name) != 1:
                     continue
                 uses = [n for n in ast.walk(f) if isinstance(n, ast.Name) and n.id == st.name and isinstance(n.ctx, ast.Load)]
                 calls = [n for n in ast.walk(f) if isinstance(n, ast.Call) and isinstance(n.func, ast.Name)
                          and n.func.id == st.name and not n.keywords and len(n.args) == len(pnames)
                          and all(_pure(x) for x in n.args)]
                 if len(uses) != len(calls) or not calls:
+                    continue
+                # a free name of the closure is never bound in the enclosing function, or bound exactly once and that
+                # before every call (outside loops)
+                first_call = min(c.lineno for c in calls)
+                bad = False
+                for name in free:
+                    lines = [ln for n, ln in stores if n == name]
+                    if lines and (len(lines) > 1 or lines[0] >= first_call or name in params
+                                  or any(isinstance(lp, (ast.For, ast.While)) for lp in ast.walk(f))):
+                        bad = True
+                if bad:
                     continue
 
                 class Inline(ast.NodeTransformer):
@@ -527,13 +660,17 @@ def normalize_function(fdef, consts=None, keep=()):
                 if name in keep or name in params or not _pure(st.value) or isinstance(st.value, (ast.Constant,)) \
                         or sum(1 for n, _ in stores if n == name) != 1:
                     continue
-                if any(st in list(ast.walk(lp)) for lp in loops):
-                    continue
+                inside = [lp for lp in loops if any(st is x for x in ast.walk(lp))]
                 free = _free_names(st.value)
                 if name in free or any(n in free and ln > st.lineno for n, ln in stores):
                     continue
                 uses = [n for n in ast.walk(f) if isinstance(n, ast.Name) and n.id == name and isinstance(n.ctx, ast.Load)]
                 if not uses or any(u.lineno <= st.lineno for u in uses):
+                    continue
+                # a definition inside a loop body may only be used in the same iteration of the same loops
+                if inside and any([lp for lp in loops if any(u is x for x in ast.walk(lp))] != inside for u in uses):
+                    continue
+                if inside and any(u.lineno <= st.lineno for u in uses):
                     continue
                 end = getattr(st, "end_lineno", st.lineno)
                 if _interferes(f, end, max(u.lineno for u in uses) - 1):
@@ -590,7 +727,7 @@ def nat_expr(file, n, names):
 
 def _func(tree, name, file, cls=None, keep=()):
     """the (normalised, see normalize_function) definition of a function / method"""
-    return normalize_function(_func_raw(tree, name, file, cls), module_constants(tree), keep)
+    return normalize_function(_func_raw(tree, name, file, cls), module_constants(tree), keep, module=tree)
 
 
 def _func_raw(tree, name, file, cls=None):
@@ -626,7 +763,7 @@ def gen_fitglue(repo):
     # 1 -- __polynomial_fit -------------------------------------------------------------------
     f = _func(ft, "__polynomial_fit", FITTING, keep=("weights",))
     body = strip_doc(f.body)
-    if [a.arg for a in f.args.args] != ["xdata", "ydata", "degrees", "yerr"] or len(body) != 4:
+    if [a.arg for a in f.args.args] != ["xdata", "ydata", "degrees", "yerr"] or len(body) != 3:
         raise TranslateError(FITTING, f, "__polynomial_fit: signature / number of statements")
     st = body[0]
     wexpr = None
@@ -640,10 +777,18 @@ def gen_fitglue(repo):
         raise TranslateError(FITTING, st, "__polynomial_fit: weights = E if yerr is not None else None")
     both("polyfit_weight", "v_yerr", ExprTr(FITTING, ["yerr"]).tr(wexpr),
          "{}:{} weights handed to numpy.polyfit".format(FITTING, st.lineno))
-    _expect(FITTING, body[1], "popt, pcov = np.polyfit(xdata.values, ydata.values, degrees, cov=True, w=weights)",
-            "__polynomial_fit")
-    _expect(FITTING, body[2], "perr = np.sqrt(np.diag(pcov))", "__polynomial_fit")
-    _expect(FITTING, body[3], "return RawFitResults(popt, perr, pcov)", "__polynomial_fit")
+    call = body[1]
+    if not (isinstance(call, ast.Assign) and isinstance(call.targets[0], ast.Tuple) and len(call.targets[0].elts) == 2
+            and all(isinstance(t, ast.Name) for t in call.targets[0].elts) and isinstance(call.value, ast.Call)
+            and ast.unparse(call.value.func) == "np.polyfit"
+            and [ast.unparse(a) for a in call.value.args] == ["xdata.values", "ydata.values", "degrees"]
+            and {k.arg: ast.unparse(k.value) for k in call.value.keywords} == {"cov": "True", "w": "weights"}):
+        raise TranslateError(FITTING, call, "__polynomial_fit: P, C = np.polyfit(xdata.values, ydata.values, degrees, cov=True, w=weights)")
+    pn, cn = (t.id for t in call.targets[0].elts)
+    if pn == cn or [n for n, _ in _stores(f)].count(pn) != 1 or [n for n, _ in _stores(f)].count(cn) != 1:
+        raise TranslateError(FITTING, call, "__polynomial_fit: results of polyfit rebound")
+    # (a local bound once to np.sqrt(np.diag(C)) has been substituted by the normalisation)
+    _expect(FITTING, body[2], "return RawFitResults({0}, np.sqrt(np.diag({1})), {1})".format(pn, cn), "__polynomial_fit")
 
     # 2 -- fit_to_xy_dataset: mask, yerr selection, dispatch -----------------------------------
     f = _func(ft, "fit_to_xy_dataset", FITTING, keep=("x_to_fit", "y_to_fit", "yerr", "xrange", "pcorr", "params", "result_func"))
@@ -719,7 +864,12 @@ def gen_fitglue(repo):
     if not (isinstance(second, ast.If) and ast.unparse(second.test) == "any((err > 0 for err in xdata.errors))"
             and len(second.body) == 4 and not second.orelse):
         raise TranslateError(FITTING, second, "__curve_fit: second pass block")
-    _expect(FITTING, second.body[0], "func = __combine_fit_func_and_fit_params(fit_func, popt)", "__curve_fit")
+    st0 = second.body[0]
+    if not (isinstance(st0, ast.Assign) and len(st0.targets) == 1 and isinstance(st0.targets[0], ast.Name)
+            and ast.unparse(st0.value) == "__combine_fit_func_and_fit_params(fit_func, popt)"
+            and [n for n, _ in _stores(f)].count(st0.targets[0].id) == 1):
+        raise TranslateError(FITTING, st0, "__curve_fit: F = __combine_fit_func_and_fit_params(fit_func, popt)")
+    fname = st0.targets[0].id            # the first-pass curve (any name, bound once)
     _expect(FITTING, second.body[1], "yerr = 0 if yerr is None else yerr", "__curve_fit")
     st = second.body[2]
     if not (isinstance(st, ast.Assign) and ast.unparse(st.targets[0]) == "adjusted_yerr" and isinstance(st.value, ast.Call)
@@ -728,8 +878,8 @@ def gen_fitglue(repo):
     slope_calls = [n for n in ast.walk(st.value) if isinstance(n, ast.Call)
                    and ast.unparse(n.func) == "utils.numerical_derivative"]
     if len(slope_calls) != 1 or len(slope_calls[0].args) != 2 or slope_calls[0].keywords \
-            or ast.unparse(slope_calls[0].args[0]) != "func":
-        raise TranslateError(FITTING, st, "__curve_fit: numerical_derivative(func, <points>) expected once")
+            or ast.unparse(slope_calls[0].args[0]) != fname:
+        raise TranslateError(FITTING, st, "__curve_fit: numerical_derivative(<first-pass curve>, <points>) expected once")
     where = ast.unparse(slope_calls[0].args[1])
     if where not in ("xdata.values", "xdata.errors"):
         raise TranslateError(FITTING, st, "__curve_fit: slope evaluated at " + where)
@@ -788,44 +938,70 @@ def gen_fitglue(repo):
     f = _func(ft, "__correlate_fit_params", FITTING)
     body = strip_doc(f.body)
     argn = [a.arg for a in f.args.args]
-    if len(argn) != 2 or argn[0] != "params" or len(body) != 1 or not isinstance(body[0], ast.For):
+    if len(argn) != 2 or argn[0] != "params" or len(body) != 1 or not isinstance(body[0], ast.For):  # (after normalisation)
         raise TranslateError(FITTING, f, "__correlate_fit_params: shape")
     mat = argn[1]
     o = body[0]
-    if ast.unparse(o.target) != "(index1, param1)" or ast.unparse(o.iter) != "enumerate(params)" or len(o.body) != 1 \
-            or not isinstance(o.body[0], ast.For) or o.orelse:
-        raise TranslateError(FITTING, o, "__correlate_fit_params: outer loop")
-    i = o.body[0]
-    it = ast.unparse(i.iter)
-    if ast.unparse(i.target) != "(index2, param2)" or i.orelse \
-            or it not in ("enumerate(params[index1 + 1:])", "enumerate(params[index1 + 1:], index1 + 1)"):
-        raise TranslateError(FITTING, i, "__correlate_fit_params: inner loop")
-    # value of the loop variable index2 in terms of the position k = 0, 1, .. in params[index1 + 1:]
-    idx2 = "v_index2" if it == "enumerate(params[index1 + 1:])" else "(v_index2 + (v_index1 + 1%nat)%nat)%nat"
+    pair_loop = isinstance(o.iter, ast.GeneratorExp)
+    if pair_loop:
+        # for R, C in ((i, j) for i in range(len(params)) for j in range(i + 1, len(params))): the pairs i < j, row by row
+        ge = o.iter
+        ok = isinstance(o.target, ast.Tuple) and len(o.target.elts) == 2 and all(isinstance(t, ast.Name) for t in o.target.elts) \
+            and not o.orelse and len(ge.generators) == 2 and all(not g.ifs and not g.is_async for g in ge.generators) \
+            and all(isinstance(g.target, ast.Name) for g in ge.generators)
+        if ok:
+            gi, gj = ge.generators[0].target.id, ge.generators[1].target.id
+            ok = gi != gj and ast.unparse(ge.elt) == "({}, {})".format(gi, gj) \
+                and ast.unparse(ge.generators[0].iter) == "range(len(params))" \
+                and ast.unparse(ge.generators[1].iter) == "range({} + 1, len(params))".format(gi)
+        if not ok:
+            raise TranslateError(FITTING, o, "__correlate_fit_params: loop over the index pairs")
+        rn, cn = o.target.elts[0].id, o.target.elts[1].id
+        p1, p2 = "params[{}]".format(rn), "params[{}]".format(cn)
+        names = (rn, cn)
+        subst = {"v_" + rn: "v_index1", "v_" + cn: "(v_index2 + (v_index1 + 1%nat)%nat)%nat"}
+        i = o
+    else:
+        if ast.unparse(o.target) != "(index1, param1)" or ast.unparse(o.iter) != "enumerate(params)" or len(o.body) != 1 \
+                or not isinstance(o.body[0], ast.For) or o.orelse:
+            raise TranslateError(FITTING, o, "__correlate_fit_params: outer loop")
+        i = o.body[0]
+        it = ast.unparse(i.iter)
+        if ast.unparse(i.target) != "(index2, param2)" or i.orelse \
+                or it not in ("enumerate(params[index1 + 1:])", "enumerate(params[index1 + 1:], index1 + 1)"):
+            raise TranslateError(FITTING, i, "__correlate_fit_params: inner loop")
+        # value of the loop variable index2 in terms of the position k = 0, 1, .. in params[index1 + 1:]
+        idx2 = "v_index2" if it == "enumerate(params[index1 + 1:])" else "(v_index2 + (v_index1 + 1%nat)%nat)%nat"
+        p1, p2 = "param1", "param2"
+        names = ("index1", "index2")
+        subst = {"v_index2": idx2}
     if len(i.body) == 2:
-        _expect(FITTING, i.body[0], "if param1.error == 0 or param2.error == 0:\n    continue", "__correlate_fit_params")
+        _expect(FITTING, i.body[0], "if {0}.error == 0 or {1}.error == 0:\n    continue".format(p1, p2), "__correlate_fit_params")
         call = i.body[1]
     elif len(i.body) == 1 and isinstance(i.body[0], ast.If) and not i.body[0].orelse and len(i.body[0].body) == 1 \
-            and ast.unparse(i.body[0].test) == "param1.error != 0 and param2.error != 0":
+            and ast.unparse(i.body[0].test) == "{0}.error != 0 and {1}.error != 0".format(p1, p2):
         call = i.body[0].body[0]
     else:
         raise TranslateError(FITTING, i, "__correlate_fit_params: guard on zero uncertainties")
     if not (isinstance(call, ast.Expr) and isinstance(call.value, ast.Call)
-            and ast.unparse(call.value.func) == "param1.set_covariance" and len(call.value.args) == 2
-            and not call.value.keywords and ast.unparse(call.value.args[0]) == "param2"):
-        raise TranslateError(FITTING, call, "__correlate_fit_params: param1.set_covariance(param2, M[R][C])")
+            and ast.unparse(call.value.func) == p1 + ".set_covariance" and len(call.value.args) == 2
+            and not call.value.keywords and ast.unparse(call.value.args[0]) == p2):
+        raise TranslateError(FITTING, call, "__correlate_fit_params: P1.set_covariance(P2, M[R][C])")
     e = call.value.args[1]
     if not (isinstance(e, ast.Subscript) and isinstance(e.value, ast.Subscript) and ast.unparse(e.value.value) == mat):
         raise TranslateError(FITTING, e, "__correlate_fit_params: M[R][C] of the matrix argument")
+
+    def index_text(node):
+        t = nat_expr(FITTING, node, names)
+        import re as _re
+        return _re.sub(r"v_\w+", lambda m: subst.get(m.group(0), m.group(0)), t)
     defsQ.append("(* {}:{} entry of the covariance matrix registered for the pair (index1, k + index1 + 1), k the position in "
                  "params[index1 + 1:] *)".format(FITTING, call.lineno))
-    defsQ.append("Definition corr_row (v_index1 v_index2 : nat) : nat := {}.".format(
-        nat_expr(FITTING, e.value.slice, ("index1", "index2")).replace("v_index2", idx2)))
-    defsQ.append("Definition corr_col (v_index1 v_index2 : nat) : nat := {}.".format(
-        nat_expr(FITTING, e.slice, ("index1", "index2")).replace("v_index2", idx2)))
+    defsQ.append("Definition corr_row (v_index1 v_index2 : nat) : nat := {}.".format(index_text(e.value.slice)))
+    defsQ.append("Definition corr_col (v_index1 v_index2 : nat) : nat := {}.".format(index_text(e.slice)))
 
     # 6 -- utils.cov2corr ----------------------------------------------------------------------
-    f = _func(ut, "cov2corr", QUTILS)
+    f = _func(ut, "cov2corr", QUTILS, keep=("std",))
     body = strip_doc(f.body)
     if [a.arg for a in f.args.args] != ["pcov"] or len(body) != 2 or not isinstance(body[1], ast.Return):
         raise TranslateError(QUTILS, f, "cov2corr: shape")
